@@ -42,44 +42,46 @@ theorem listWrite_noPanic (xs : List Val) (fld : List Nat) (v : Val) : noPanic (
     · next h => rw [setIndex_ok _ _ _ h] at he; cases he
     · cases he; exact plain_ne_panic _
 
-theorem del_eq (b : List Val) (l : Nat) (i : Int) (hl : l ≤ b.length) :
-    Site.del b l i = if i < 0 ∨ i ≥ l then .error (plain "Out of bounds access to list")
-      else .ok (b.take i.toNat ++ (b.take l).drop (i.toNat + 1) ++ b.drop (l - 1)) := by
+theorem del_eq (xs : List Val) (i : Int) :
+    Site.del xs i = if i < 0 ∨ i ≥ xs.length then .error (plain "Out of bounds access to list")
+      else .ok (xs.take i.toNat ++ xs.drop (i.toNat + 1)) := by
   unfold Site.del
   split
   · rfl
   · next h =>
     have h1 : 0 ≤ i := by omega
-    have h2 : i < l := by omega
-    have hlen : (b.take l).length = l := by simp [List.length_take]; omega
-    rw [slice_ok b 0 i ⟨by omega, h1, by omega⟩]
-    rw [slice_ok (b.take l) (i + 1) l ⟨by omega, by omega, by rw [hlen]; omega⟩]
+    have h2 : i < xs.length := by omega
+    rw [slice_ok xs 0 i ⟨by omega, h1, by omega⟩]
+    rw [slice_ok xs (i + 1) xs.length ⟨by omega, by omega, by omega⟩]
     have e1 : (i + 1).toNat = i.toNat + 1 := by omega
-    simp [bind, Except.bind, pure, Except.pure, e1, List.take_take]
+    simp [bind, Except.bind, pure, Except.pure, e1]
 
-theorem del_noPanic (b : List Val) (l : Nat) (i : Int) (hl : l ≤ b.length) : noPanic (Site.del b l i) := by
+theorem del_noPanic (xs : List Val) (i : Int) : noPanic (Site.del xs i) := by
   intro e he
-  rw [del_eq b l i hl] at he
+  rw [del_eq xs i] at he
   split at he
   · cases he; exact plain_ne_panic _
   · cases he
 
-theorem insert_noPanic (cur : List Val) (v : Val) (i : Int) : noPanic (Site.insert cur v i) := by
-  intro e he
-  unfold Site.insert at he
-  split at he
-  · cases he; exact plain_ne_panic _
+theorem insert_eq (xs : List Val) (v : Val) (i : Int) :
+    Site.insert xs v i = if i < 0 ∨ i > xs.length then .error (plain "Out of bounds access to list")
+      else .ok (xs.take i.toNat ++ [v] ++ xs.drop i.toNat) := by
+  unfold Site.insert
+  split
+  · rfl
   · next h =>
     have h1 : 0 ≤ i := by omega
-    have h2 : i + 1 ≤ cur.length := by omega
-    rw [slice_ok cur (i + 1) cur.length ⟨by omega, by omega, by omega⟩,
-        slice_ok cur i cur.length ⟨h1, by omega, by omega⟩] at he
-    simp only [bind, Except.bind] at he
-    rw [setIndex_ok] at he
-    · cases he
-    · refine ⟨h1, ?_⟩
-      simp only [List.length_append, List.length_take, List.length_drop]
-      omega
+    have h2 : i ≤ xs.length := by omega
+    rw [slice_ok xs 0 i ⟨by omega, h1, by omega⟩]
+    rw [slice_ok xs i xs.length ⟨h1, by omega, by omega⟩]
+    simp [bind, Except.bind, pure, Except.pure]
+
+theorem insert_noPanic (xs : List Val) (v : Val) (i : Int) : noPanic (Site.insert xs v i) := by
+  intro e he
+  rw [insert_eq xs v i] at he
+  split at he
+  · cases he; exact plain_ne_panic _
+  · cases he
 
 theorem mapLit_noPanic (kvs : List (Val × Val)) (k v : Val) (err : Sig) (herr : err ≠ Sig.panic) :
     noPanic (Site.mapLit kvs k v err) := by
@@ -152,13 +154,18 @@ theorem numOperands_refines (a b : Val) (errA errB : Sig) :
        | _, _ => .error errA) := by
   cases a <;> cases b <;> rfl
 
-/-- `delAt` (after the add/del repair, fixes/C05-add-del-new-list.patch): a NEW list holding `argList[:i]` and
-    `argList[i+1:]`; no existing backing array is written any more (`Site.del` above still describes the slicing of
-    the code before that repair) -/
+/-- `delAt` (after 4ad50aa): a NEW list holding `Site.del`'s result on the slice's elements — `xs.take i ++ xs.drop (i+1)`
+    with `xs = (backing r).take l` — no existing backing array is written -/
 theorem delAt_backing (r l i : Nat) (s : St) :
     (delAt r l i).run.run s =
       (.ok (Val.list s.lists.size (List.take i (List.take l (s.lists.getD r [])) ++ List.drop (i + 1) (List.take l (s.lists.getD r []))).length),
        { s with lists := s.lists.push (List.take i (List.take l (s.lists.getD r [])) ++ List.drop (i + 1) (List.take l (s.lists.getD r []))) }) := rfl
+
+/-- `insertAt` (after 4ad50aa): a NEW list holding `Site.insert`'s result `xs.take i ++ [v] ++ xs.drop i` -/
+theorem insertAt_backing (r l : Nat) (v : Val) (i : Nat) (s : St) :
+    (insertAt r l v i).run.run s =
+      (.ok (Val.list s.lists.size (List.take i (List.take l (s.lists.getD r [])) ++ [v] ++ List.drop i (List.take l (s.lists.getD r []))).length),
+       { s with lists := s.lists.push (List.take i (List.take l (s.lists.getD r [])) ++ [v] ++ List.drop i (List.take l (s.lists.getD r []))) }) := rfl
 
 /-- `goEq` on operands that Go's `==` can compare (no opaque model value): the comparable branch of valuesEqual -/
 theorem valuesEqual_refines (a b : Val) (deep : Bool) (h : (sameDyn a b && uncomparable a) = false) :
@@ -172,10 +179,12 @@ theorem valuesEqual_refines (a b : Val) (deep : Bool) (h : (sameDyn a b && uncom
 theorem witness_listRead : Site.listReadUnguarded [Val.null] [45, 53] = .error Sig.panic := by rfl
 /-- `a := [1]; a[-5] := 2` -/
 theorem witness_listWrite : Site.listWriteUnguarded [Val.null] [45, 53] Val.null = .error Sig.panic := by rfl
-/-- `del([1], 5)` -/
-theorem witness_del : Site.delUnguarded [Val.null] 1 5 = .error Sig.panic := by rfl
-/-- `add([1], 2, 7)` (after the append: two elements) -/
-theorem witness_insert : Site.insertUnguarded [Val.null, Val.null] Val.null 7 = .error Sig.panic := by rfl
+/-- `del([1], 5)`: the current code without its bounds test, and the in-place code before ee44ab4 -/
+theorem witness_del : Site.delUnguarded [Val.null] 5 = .error Sig.panic := by rfl
+theorem witness_del_old : Site.delOldUnguarded [Val.null] 1 5 = .error Sig.panic := by rfl
+/-- `add([1], 2, 7)`: the current code without its bounds test, and the in-place code before ee44ab4 (two elements after the append) -/
+theorem witness_insert : Site.insertUnguarded [Val.null] Val.null 7 = .error Sig.panic := by rfl
+theorem witness_insert_old : Site.insertOldUnguarded [Val.null, Val.null] Val.null 7 = .error Sig.panic := by rfl
 /-- `{[1]:2}` -/
 theorem witness_mapLit : Site.mapLitUnguarded [] (Val.list 1 1) Val.null = .error Sig.panic := by rfl
 /-- `5 % 0` -/
